@@ -126,7 +126,7 @@ Proof.
       as (k1 & l1 & its & st' & Hst1 & Hsh1 & Hdd1 & Hend).
     destruct Hend as [(A & _)|(_ & -> & Ho1 & Hs1)]; [discriminate A|].
     cbn [rest_src] in Hs1.
-    destruct Hcmd as [Hcmd|[Hname Hcl]].
+    destruct Hcmd as [Hcmd|(sp & Hsp & Hname & Hcl)].
     + destruct (lex_special_cmd uni_letter uni_digit letter_ascii digit_ascii letter_eof digit_eof inp l1 n o (T' ++ rest_src r) Hcmd Hs1)
         as (k2 & l2 & ld & c & rd & Hst2 & Hs2 & Ho2 & Hld & Hrd & Hc & Hla2 & Hv2 & Hdd2).
       assert (Hpw : pwof 0 l2 = false) by (unfold pwof; rewrite Hla2, Hv2; reflexivity).
@@ -137,7 +137,7 @@ Proof.
       { rewrite Ho3, Ho2, Ho1, !rev_app_distr. cbn [rev app]. rewrite <- !app_assoc. reflexivity. }
       eapply ms_tag; [exact Hsh1|apply ti_cmd; assumption|exact Hsh].
     + cbn [fst snd] in Hname, Hcl. subst n.
-      destruct (lex_literal_cmd uni_letter uni_digit letter_ascii digit_ascii letter_eof digit_eof inp l1 o (T' ++ rest_src r) Hs1 Hcl)
+      destruct (lex_literal_cmd uni_letter uni_digit letter_ascii digit_ascii letter_eof digit_eof inp l1 sp o (T' ++ rest_src r) Hsp Hs1 Hcl)
         as (k2 & l2 & ld & kw & rd & tx & ld2 & ke & rd2 & Hst2 & Hs2 & Ho2 & A1 & A2 & A3 & A4 & A5 & A6 & A7 & A8 & Hla2 & Hv2 & Hdd2).
       assert (Hpw : pwof 0 l2 = false) by (unfold pwof; rewrite Hla2, Hv2; reflexivity).
       destruct (IH rp' T' pcs' l2 Hs2 Hdd2 ltac:(rewrite Hpw; exact Hok') ltac:(rewrite Hpw; exact Hpc') Hrest' Hrp') as (k3 & l3 & items & Hst3 & Ho3 & Hsh).
